@@ -1,4 +1,5 @@
 import LSProofs.PrimLemmas
+import LSProofs.TextSpec
 /-!
 # C13 — shrinking keeps the text, never grows, lands on the requested size
 -/
@@ -49,6 +50,37 @@ theorem shrink_unique_exact (rf : Refuse) (hp : Heap) (a l m : Nat) (b : Block) 
   have h2 : ¬ max l m ≥ b.cap := by omega
   simp only [shrinkTo, hb, h1, h2, hu, if_false, if_true]
   cases hp.realloc rf a (max l m) <;> rfl
+
+/-- the whole property at world level, for every `m`, every well-formed world, every sharing
+situation: the text is kept; the capacity never grows (beyond the inline size), is never below
+`len`, and never below `m` unless it already was; a heap target whose capacity exceeded
+`max len m` lands on exactly `max len m`, or on inline storage when that fits — whether or not the
+buffer was shared; a refusal changes nothing -/
+theorem shrink_to_world (rf : Refuse) (w : World) (h : Nat) (r : Handle) (t : Bytes) (m : Nat) (plain : Bool)
+    (hw : Wf w) (hg : w.get h = some r) (ht : w.text h = some t) :
+    ((step rf w (.shrinkTo h m plain)).2 = .ok .unit ∧ (step rf w (.shrinkTo h m plain)).1.text h = some t ∧
+      ∃ r', (step rf w (.shrinkTo h m plain)).1.get h = some r' ∧
+        capOf (step rf w (.shrinkTo h m plain)).1.heap r' ≤ max (capOf w.heap r) 16 ∧
+        t.length ≤ capOf (step rf w (.shrinkTo h m plain)).1.heap r' ∧
+        (m ≤ capOf (step rf w (.shrinkTo h m plain)).1.heap r' ∨
+          capOf (step rf w (.shrinkTo h m plain)).1.heap r' = capOf w.heap r) ∧
+        (∀ a l, r = .heap a l → max l m < capOf w.heap r →
+          (max l m ≤ 16 → ∃ raw, r' = .inl raw) ∧
+          (16 < max l m → capOf (step rf w (.shrinkTo h m plain)).1.heap r' = max l m ∧ ∃ a', r' = .heap a' l))) ∨
+    ((step rf w (.shrinkTo h m plain)).2 = failOut plain ∧ SameAs w (step rf w (.shrinkTo h m plain)).1 h) := by
+  obtain ⟨r0, hg0, g⟩ := good_of_text hw ht
+  rw [hg] at hg0; injection hg0 with hg0; subst hg0
+  have hsat := shrinkTo_sat g rf m
+  simp only [step, hg]
+  revert hsat
+  cases shrinkTo rf w.heap r m with
+  | ok v hp1 r1 =>
+    intro ⟨g1, c1, c2, c3, c4, _, _⟩; left
+    exact ⟨rfl, text_put_self g1, r1, World.get_put_self .., c1, c2, c3, c4⟩
+  | err hp1 r1 => intro ⟨hr, hsl⟩; right; subst hr; exact ⟨rfl, sameAs_put hg hsl⟩
+  | pidx hp1 r1 => intro hf; exact hf.elim
+  | pcb hp1 r1 => intro hf; exact hf.elim
+  | ub u => intro hf; exact hf.elim
 
 -- the pre-repair sizing (growth rule) on the F2 replay: 150, not 100
 example : Gen.amortizedGrowth 100 (100 - 100) = 150 := by decide
